@@ -78,7 +78,10 @@ pub fn replay(args: &[String]) {
         std::fs::create_dir_all(&root).unwrap();
         std::fs::create_dir_all(&other).unwrap();
         let root = root.canonicalize().unwrap();
-        for sp in case["cases"].as_array().unwrap() {
+        // one handler that lives across all notifications of this case, like the watcher thread's
+        let (ptx, prx) = w::test_channel();
+        let mut persistent = w::TestHandler::new(vec![root.clone()], ptx);
+        for (si, sp) in case["cases"].as_array().unwrap().iter().enumerate() {
             rep.checks += 1;
             let p = abs_path(&root, &sp["path"]);
             // what is on disk: parents exist; the entry exists unless it was removed
@@ -130,6 +133,24 @@ pub fn replay(args: &[String]) {
                     rep.mismatch(json!({"what":"the notification does not name exactly the entry (and its parent for create/rename/remove)",
                         "kind":kind,"path":p.display().to_string(),"roots":roots.len(),"got":got,"want":want,"entry":e}));
                 }
+            }
+            // 3. the same notification through the long-lived handler, after notifications about paths that
+            //    have no id (below two directories, so that a partly built id would be left behind)
+            if si % 2 == 1 {
+                for bad in [root.join("pa").join("pb").join("dotted.name.x"), root.join("pa").join(".hid.den.swp"),
+                            root.join("pa").join("pb").join("..").join("..").join("..").join("esc.x")] {
+                    let ev = notify::Event { kind: event_kind("modify", false), paths: vec![bad], attrs: Default::default() };
+                    persistent.handle(ev);
+                }
+                let _ = prx.drain();
+            }
+            let ev = notify::Event { kind: event_kind(kind, is_dir), paths: vec![p.clone()], attrs: Default::default() };
+            persistent.handle(ev);
+            let got: BTreeSet<String> = prx.drain().into_iter().flatten().map(|x| ent_json(&x)).collect();
+            let want: BTreeSet<String> = sp["named"].as_array().unwrap().iter().map(spec_ent).collect();
+            if got != want {
+                rep.mismatch(json!({"what":"a handler that already saw other notifications does not name exactly the entry (state carried from one notification to the next)",
+                    "kind":kind,"path":p.display().to_string(),"after_unnameable_paths":si % 2 == 1,"got":got,"want":want,"entry":e}));
             }
             // clean the entry so that the next spelling starts from the same state
             let _ = if p.is_dir() && p != root { std::fs::remove_dir_all(&p) } else { std::fs::remove_file(&p) };
